@@ -1,11 +1,20 @@
 from props.common import run_all as run  # noqa: F401
 
-META = {
-    "title": "Encoders and decoders are mutually inverse and match their standards",
-    "trusted_base": ["strchr modelled as first-index search in the regenerated table"],
-    "assumptions": [],
-    "level_text": "partial: hex codec proved (model = lowercase-hex spec; decoder exact on every C string; inverse) and tied by translator (tables) + correspondence; base-64, endian, socket-address and JSON parts not yet covered",
-    "level_note": "Coq kernel; hand-written Gallina model of hexify.c bound to the C by differential execution (ASan build); strchr modelled as first-index search",
-}
-
-
+META = {'claimed': True,
+ 'title': 'Encoders and decoders are mutually inverse and match their standards',
+ 'level_text': 'proof: hex: hexify writes the lowercase spec + NUL, unhexify equals the spec decoder on every C string and length (either case; accepts exactly 2*len hex digits), unhexify inverts '
+               'hexify (C17_hexify_is_lowercase_hex, C17_unhexify_exact, C17_unhex_accepts_exactly_hex, C17_unhexify_inverts_hexify). Base-64: the table in b64encode.c is the RFC 4648 alphabet + '
+               "'='; b64encode equals RFC 4648 with padding for every byte string; b64decode equals the spec decoder on every input, accepts exactly the well-formed encodings, and decode(encode bs) "
+               '= bs on the models run one after the other (C17_b64encode_eq_rfc4648, C17_b64decode_exact, C17_b64decode_accepts_iff, C17_b64decode_encode). Endian: the six store/load pairs (tables '
+               'regenerated from sysendian.h) write/read the defined byte order at any offset of any object touching exactly N/8 bytes, dec(enc x) = x for x < 2^N and enc(dec bs) = bs '
+               '(C17_endian_*). Socket addresses: serialise/deserialise and dup give the address back, cmp = 0 iff equal; prettyprint then resolve gives the same address for IPv4 (proved with '
+               'concrete dotted-quad conversions), Unix paths, and IPv6 under the ASSUMED libc law pton6(ntop6 a) = Some a; bracketed literals with port resolve to the address they denote '
+               '(C17_sock_addr_*, C17_resolve_*). JSON: on every well-formed object (any names incl. duplicates/prefixes/escapes/\\u, any values, any whitespace, any trailing bytes) and key, '
+               'json_find returns the offset of the value of the FIRST member whose decoded name equals the key (names with \\u never match), else the end; also for every RFC 8259-valid object '
+               '(C17_json_find_correct, C17_json_find_correct_rfc8259, C17_json_find_spec_meaning; regression example for repaired defect F5). 30 theorems, unbounded in lengths and nesting. Bound to '
+               "the C by correspondence runs (ASan; implementation = extracted model = Coq spec = Python's base64/struct/socket/json as a fourth opinion).",
+ 'level_note': 'Trusted: Coq kernel + vm_compute (table equalities); translators x_codec.py, x_codec2.py, x_json.py; inet_pton/inet_ntop for AF_INET6 and getaddrinfo are libc oracles whose inverse '
+               'law is a stated premise (checked by differential execution); strchr modelled as first-index search; hand-written models bound by differential execution. Print Assumptions: closed '
+               'under the global context.',
+ 'trusted_base': ['transcription of RFC 4648 and the JSON grammar (RFC 8259) in coq/Util/*Spec.v, JsonRfc.v', 'libc inet_pton/inet_ntop(AF_INET6) inverse law (premise)'],
+ 'assumptions': ['host-name forms that reach the resolver are outside the property (numeric and Unix-path forms only)']}
